@@ -1418,6 +1418,7 @@ class BinaryOperator(SymbolicExpression, ABC):
     _child_: SymbolicExpression = field(init=False, default=None)
     _cache_: IndexedCache = field(default_factory=IndexedCache, init=False)
     _cached_with_false_results_: Optional[bool] = field(default=None, init=False, repr=False)
+    _skipped_filing_a_result_: bool = field(default=False, init=False, repr=False)
     """
     Whether the results in the caches of this operator were computed while its false results were wanted too.
     """
@@ -1523,16 +1524,23 @@ class BinaryOperator(SymbolicExpression, ABC):
 
     def update_cache(self, values: Dict[int, HashedValue], cache: Optional[IndexedCache] = None):
         if not is_caching_enabled():
+            # a result that is not filed is missing from the caches: this evaluation cannot be recorded as complete any
+            # more, also when caching is switched on again before it ends.
+            self._skipped_filing_a_result_ = True
             return
         cache = self._cache_ if cache is None else cache
         cache.insert({k: v for k, v in values.items() if k in cache.keys}, output=self._is_false_)
+
+    def _reset_only_my_cache_(self) -> None:
+        super()._reset_only_my_cache_()
+        self._skipped_filing_a_result_ = False
 
     def mark_cache_complete(self, sources: Dict[int, HashedValue], cache: Optional[IndexedCache] = None):
         """
         Record in the cache that the evaluation under the given sources ran to completion, only then the cache may
         answer for these sources instead of evaluating again.
         """
-        if not is_caching_enabled():
+        if not is_caching_enabled() or self._skipped_filing_a_result_:
             return
         cache = self._cache_ if cache is None else cache
         cache.mark_complete(sources)
